@@ -458,7 +458,7 @@ def _r6(rep, src, label, full):
     # the reader: both indexes from one pass, with and without a tag filter
     h = src.func(M + ':read_tag_database_both_ways')
     rep.saw_func(h)
-    lines = ['pkg-one, pkg-two: role::b\n', 'pkg-one: role::a, role::b\n', 'pkg-none\n', 'pkg-three: role::b, use::c\n', '\n']
+    lines = ['pkg-one, pkg-two: role::b\n', 'pkg-one: role::a, role::b\n', 'pkg-none\n', 'pkg-three: role::b, use::c\n', '\n', 'pkg-four, pkg-five: use::d, role::zzz\n']
     for with_filter in (False, True):
         heap, it, me = _world(src)
         heap.hooks['TF'] = lambda it_, a, k: a[0] in KEEP_T
@@ -471,11 +471,28 @@ def _r6(rep, src, label, full):
         pair = it.seq(r_)
         db, _a = _plain(heap, pair[0])
         rdb, _b = _plain(heap, pair[1])
-        ref = {'pkg-one': {'role::a', 'role::b'}, 'pkg-two': {'role::b'}, 'pkg-none': set(), 'pkg-three': {'role::b', 'use::c'}}
+        ref = {'pkg-one': {'role::a', 'role::b'}, 'pkg-two': {'role::b'}, 'pkg-none': set(), 'pkg-three': {'role::b', 'use::c'},
+               'pkg-four': {'use::d', 'role::zzz'}, 'pkg-five': {'use::d', 'role::zzz'}}
         if with_filter:
             ref = {p_: {t for t in ts if t in KEEP_T} for p_, ts in ref.items()}
         want_db = {k: frozenset(v) for k, v in ref.items()}
         want_rdb = {k: frozenset(v) for k, v in _inverse(ref).items()}
+        # every entry of either index owns its set: a line that lists several packages (or several tags) must not leave one set
+        # object under several keys -- the derived views (reverse()) update such sets in place
+        shared = None
+        for idx_name, d_ in (('package', pair[0]), ('tag', pair[1])):
+            ent_ = heap.objs[d_.name]['entries'] if isinstance(d_, H.Ref) and heap.objs[d_.name]['__class__'] == 'dict' else []
+            seen_ = {}
+            for k_, v_ in ent_:
+                if isinstance(v_, set) and id(v_) in seen_ and shared is None:
+                    shared = (idx_name, seen_[id(v_)], k_)
+                seen_.setdefault(id(v_), k_)
+        what_own = 'every entry the reader creates owns its set%s' % (' (with a tag filter)' if with_filter else '')
+        if shared:
+            rep.fail('C20.R3', h.site, what_own, 'after reading %r the %s index holds ONE set object under %r and %r: an in-place update of one entry (insert through a reverse() view, '
+                     'whose indexes are these dictionaries) changes the other as well, and the two indexes stop being inverse' % (lines[-1], shared[0], shared[1], shared[2]), where=h.where)
+        else:
+            rep.ok('C20.R3', h.site, what_own, 'all sets distinct objects')
         if db == want_db and rdb == want_rdb:
             rep.ok('C20.R3', h.site, what, '%d packages, %d tags' % (len(db), len(rdb)))
         else:
